@@ -255,6 +255,10 @@ def r2_r3(ctx):
   ctx.ob('C11.R3', rt, 'tag map entries are added by AsyncProcessRequest and removed by _ReleaseTag only', not bad, 'other tag-map mutations in %s' % bad, why3)
 
 
+def _is_subscript_store_base(stmt, attr):
+  return isinstance(stmt, ast.Assign) and any(isinstance(t, ast.Subscript) and t.value is attr for t in stmt.targets)
+
+
 def r4(ctx):
   prog = ctx.prog
   f = prog.func(MUX, 'MuxSocketTransportSink.AsyncProcessRequest')
@@ -293,4 +297,18 @@ def r4(ctx):
     prop = [(i, e.node) for i, e in enumerate(ev) if e.kind == 'stmt' and isinstance(e.node, ast.Assign) and 'Tag.KEY' in U(e.node.targets[0])]
     ctx.ob('C11.R4', f, 'the tag is recorded on the message properties', bool(prop) and R(prop[0][0], prop[0][1].value) == 'self._tag_pool.get()',
            'Tag.KEY property is %s' % [U(p[1]) for p in prop], 'the timeout handler identifies the request by this property')
+    # Message.properties hands out a NEW dict on every access while the dict is still empty (`if not self._properties: self._properties = {}`):
+    # the object registered in the tag map / queued is the one carrying Tag.KEY only if the key is stored first
+    pp = prog.try_func('scales/message.py', 'Message.properties')
+    lazy_by_truth = pp is not None and any(isinstance(x, ast.If) and isinstance(x.test, ast.UnaryOp) and isinstance(x.test.op, ast.Not) and '_properties' in U(x.test.operand)
+                                           for x in ast.walk(pp.node))
+    if lazy_by_truth and prop and reg:
+      mp = '%s.properties' % f.params[2]
+      reads = [i for i, e in enumerate(ev) if e.kind in ('stmt', 'call') and i != prop[0][0] and any(
+        isinstance(x, ast.Attribute) and U(x) == mp and not _is_subscript_store_base(e.node, x) for x in ast.walk(e.node))
+        and (i == reg[0][0] or i == put[0])]
+      ctx.ob('C11.R4', f, 'Tag.KEY is stored before the properties object is registered and queued', all(prop[0][0] < i for i in reads),
+             'the properties are read for the tag map / send queue at events %s, Tag.KEY is stored at %s: Message.properties returns a fresh dict while it is empty, so the registered object would '
+             'not be the one that carries the tag (the "answered while queued" marker never reaches the queued entry)' % (reads, prop[0][0]),
+             'a recycled tag must not go out on the wire while an earlier request carrying it is still queued')
   ctx.floor('C11.R4', 'enqueue paths', n, 2)
